@@ -139,7 +139,7 @@ def run(prog, R):
         return rs
     cands = {}
     for b in prog.bodies.values():
-        if is_derive(b) or not (b.file.endswith('fasta.rs') or b.file.endswith('fastq.rs')):
+        if is_derive(b) or not (b.file.endswith('fasta.rs') or b.file.endswith('fastq.rs') or b.file.endswith('lib.rs')):
             continue
         opt_ret = re.sub(r"'\w+ ", '', b.local_tys[0]).replace(' ', '') == 'std::option::Option<&[u8]>'
         if not is_u8_slice_ref(b.local_tys[0]) and not opt_ret:
@@ -359,6 +359,40 @@ def origin_key(fo):
     return fo[:2]
 
 
+def read_key(body, fo, du):
+    """identity of an indexed read `base[i]` by what base and index derive from, so that two separate loads of the same buffer
+    byte (`if buf[i] != b'@' { .. found: buf[i] .. }`) are recognised as the same value; None for other origins"""
+    if not (fo[0] == 'def' and getattr(fo[2], 'k', None) == 'assign' and fo[2].rv.k == 'use' and not fo[2].rv.ops[0].is_const):
+        return None
+    pl = fo[2].rv.ops[0].place
+    idx = [p for p in pl.proj if p['k'] == 'index']
+    if len(idx) != 1:
+        return None
+
+    def sig(rs):
+        out = set()
+        for r in rs:
+            if r[0] == 'arg':
+                out.add(('arg', r[1], tuple(q[1] for q in r[-1])))
+            elif r[0] == 'call' and r[1].callee is not None:
+                out.add(('call', r[1].callee.target_path()))
+            else:
+                return None
+        return frozenset(out)
+    bs = sig(roots_of(body, Place({'l': pl.local, 'p': []}), du, through_calls=identity_through))
+    ix = sig(roots_of(body, Place({'l': idx[0]['local'], 'p': []}), du))
+    if not bs or not ix:
+        return None
+    return ('read', bs, ix)
+
+
+def same_value(body, fa, fb, du):
+    if origin_key(fa) == origin_key(fb):
+        return True
+    ka, kb = read_key(body, fa, du), read_key(body, fb, du)
+    return ka is not None and ka == kb
+
+
 def controlling_switches(body, blk):
     """all switch blocks the block is (transitively) control dependent on"""
     cd = body.cfg.control_deps()
@@ -374,6 +408,19 @@ def controlling_switches(body, blk):
             out.add(a)
             work.append(a)
     return out
+
+
+def shared_call(b, pt):
+    """the position-helper call `pt` feeds the `pos` field of more than one kind of error (its arguments are chosen per kind
+    by a table / match elsewhere in the function)"""
+    kinds = set()
+    for blk in b.blocks:
+        for s in blk.stmts:
+            if s.k == 'assign' and s.rv.k == 'agg' and s.rv.j.get('adt', '').endswith('::Error') and 'pos' in (s.rv.j.get('fields') or []):
+                op = dict(zip(s.rv.j['fields'], s.rv.ops))['pos']
+                if any(r[0] == 'call' and r[1] is pt for r in roots_of(b, op)):
+                    kinds.add(s.rv.j.get('variant'))
+    return len(kinds) > 1
 
 
 def epos_rules(prog, R, trimmer):
@@ -417,7 +464,8 @@ def epos_rules(prog, R, trimmer):
                     # value handed in by the caller is not): not judged; a literal that differs is a violation
                     R.add('EPOS-1', b, '%s#%d' % (v, count[v]), off == want_off and pid_ == want_id, site(b, s.line),
                           '%s: line offset %s (want %d), id requested %s (want %d)' % (v, off, want_off, pid_, want_id),
-                          undecided=(off is None or pid_ is None) and (off is None or off == want_off) and (pid_ is None or pid_ == want_id))
+                          undecided=((off is None or pid_ is None) and (off is None or off == want_off) and (pid_ is None or pid_ == want_id)) or
+                          ((off is None or pid_ is None) and shared_call(b, pt)))
                 else:  # UnexpectedEnd
                     a1 = roots_of(b, pt.args[1], du)
                     def is_part(r):
@@ -462,7 +510,9 @@ def epos_rules(prog, R, trimmer):
                     via_part = any((d_[0] == 'arg' and b.local_tys[d_[1]].endswith('RecordPos')) or d_[0] in ('call', 'discr') for d_ in dd1) or bool(a1) and all(r_[0] == 'const' for r_ in a1)
                     R.add('EPOS-1', b, '%s#%d' % (v, count[v]), ok_off and ok_id, site(b, s.line),
                           'UnexpectedEnd: line offset <- the part where the search stopped: %s; id iff part > Head: %s (%s)' % (ok_off, ok_id, how),
-                          undecided=ok_id and not ok_off and via_part)
+                          undecided=(ok_id and not ok_off and via_part) or shared_call(b, pt) or
+                          # the position helper is handed the id itself (`error_pos(offset, Option<String>)`), not a flag: another shape
+                          (not pt.args[2].is_const and pt.args[2].place.is_local() and b.local_tys[pt.args[2].place.local].strip() != 'bool'))
                 # EPOS-2
                 if v in MARKER:
                     fo = copy_origin(b, fields['found'], du)
@@ -471,25 +521,27 @@ def epos_rules(prog, R, trimmer):
                     for a in sw:
                         t = b.blocks[a].term
                         # `match byte { MARKER => .., _ => .. }`: a switch on the byte itself with the marker among its arms
-                        if not t.discr.is_const and origin_key(copy_origin(b, t.discr, du)) == origin_key(fo) and MARKER[v] in [tv for tv, _ in t.targets]:
+                        if not t.discr.is_const and same_value(b, copy_origin(b, t.discr, du), fo, du) and MARKER[v] in [tv for tv, _ in t.targets]:
                             okc = True
                         for r in roots_of(b, t.discr, du):
                             if r[0] == 'bin' and r[1].rv.j['op'] in ('Ne', 'Eq'):
                                 ops = r[1].rv.ops
                                 cs = [o for o in ops if o.const_int() == MARKER[v]]
                                 ot = [o for o in ops if o.const_int() != MARKER[v]]
-                                if len(cs) == 1 and len(ot) == 1 and copy_origin(b, ot[0], du)[:2] == fo[:2]:
+                                if len(cs) == 1 and len(ot) == 1 and (copy_origin(b, ot[0], du)[:2] == fo[:2] or same_value(b, copy_origin(b, ot[0], du), fo, du)):
                                     okc = True
                     # and the byte is read at the record-start / separator offset
                     want_field = {'InvalidStart': ['buf_pos', 'pos', '0'], 'InvalidSep': ['buf_pos', 'sep']}[v]
                     at = False
+                    at_unknown = True       # no indexed read of the buffer found behind the byte (it travelled through a tuple, a helper ...)
                     if fo[0] == 'def' and getattr(fo[2], 'rv', None) is not None and fo[2].rv.k == 'use' and not fo[2].rv.ops[0].is_const:
                         pl = fo[2].rv.ops[0].place
                         idx = [p for p in pl.proj if p['k'] == 'index']
                         if idx:
                             ir = roots_of(b, Place({'l': idx[0]['local'], 'p': []}), du)
                             at = bool(ir) and all(q[0] == 'arg' and q[1] == 1 and [f[1] for f in q[-1]] == want_field for q in ir)
-                    R.add('EPOS-2', b, '%s#%d' % (v, count[v]), okc and at, site(b, s.line), undecided=(not (okc and at)) and not decides_markers(b), detail=
+                            at_unknown = not ir
+                    R.add('EPOS-2', b, '%s#%d' % (v, count[v]), okc and at, site(b, s.line), undecided=(not (okc and at)) and (not decides_markers(b) or (okc and at_unknown)), detail=
                           'found is the byte compared with %r: %s; read at self.%s: %s' % (chr(MARKER[v]), okc, '.'.join(want_field), at))
                 if v == 'UnequalLengths':
                     # EPOS-3 / LEN-1
@@ -635,14 +687,14 @@ def epos_rules(prog, R, trimmer):
                     for a in controlling_switches(b, blk.idx):
                         t = b.blocks[a].term
                         # `match .. { Some((line, start, b'>')) => .., Some((line, _, found)) => .. }`: a switch on the byte itself
-                        if not t.discr.is_const and origin_key(copy_origin(b, t.discr, du)) == origin_key(fo) and 62 in [tv for tv, _ in t.targets]:
+                        if not t.discr.is_const and same_value(b, copy_origin(b, t.discr, du), fo, du) and 62 in [tv for tv, _ in t.targets]:
                             okc = True
                         for r in roots_of(b, t.discr, du):
                             if r[0] == 'bin' and r[1].rv.j['op'] in ('Ne', 'Eq'):
                                 ops = r[1].rv.ops
                                 cs = [o for o in ops if o.const_int() == 62]
                                 ot = [o for o in ops if o.const_int() != 62]
-                                if len(cs) == 1 and len(ot) == 1 and copy_origin(b, ot[0], du)[:2] == fo[:2]:
+                                if len(cs) == 1 and len(ot) == 1 and (copy_origin(b, ot[0], du)[:2] == fo[:2] or same_value(b, copy_origin(b, ot[0], du), fo, du)):
                                     okc = True
                     # constructed by a helper that is handed the byte (detection and reporting split): not judged there
                     handed = fo[0] == 'place' and len(fo[1]) == 1 or (fo[0] == 'multi') or (not okc and not any(
@@ -925,6 +977,19 @@ def view_rules(prog, R, trimmer):
             other_views = [d[1].callee.name for d in deps if d[0] == 'call' and d[1].callee and d[1].callee.name in ('seq', 'head', 'get_buf', 'buffer') ]
             R.add('VIEW-3', os_, 'owned-seq-concatenates-lines', uses_lines and not other_views, site(os_, os_.span['lo']),
                   'owned_seq is built from seq_lines() (idiom not analysed further): %s; other views of the buffer used: %s' % (uses_lines, other_views), undecided=uses_lines and not other_views)
+        elif not ok and not sl:
+            # does not go through seq_lines(): pieces handed out by a CR-trimming line function, in a loop - or not judged
+            pieces = [r for t in ext for r in roots_of(os_, t.args[-1], through_calls=identity_through)]
+            trimmed = bool(pieces) and all(r[0] == 'call' and prog.local_callee_body(r[1].callee) is not None and prog.local_callee_body(r[1].callee).path in GOOD_SITES for r in pieces)
+            # built from another view of the record (the raw multi-line `seq()`, the buffer): terminators are then removed by hand
+            # (seeds C01-r2a / C13-r2a: `retain`, split + trim of the raw sequence) - the line iterator is the one definition of "line"
+            deps_ = data_deps(os_, Place({'l': 0, 'p': []}))
+            raw_views = sorted(set(d[1].callee.name for d in deps_ if d[0] == 'call' and d[1].callee and d[1].callee.name in ('seq', 'get_buf', 'buffer')
+                                   and not (prog.local_callee_body(d[1].callee) is not None and prog.local_callee_body(d[1].callee).path in GOOD_SITES and d[1].callee.name != 'seq')))
+            R.add('VIEW-3', os_, 'owned-seq-concatenates-lines', trimmed and not raw_views, site(os_, os_.span['lo']),
+                  'owned_seq does not use seq_lines(); it extends a Vec with %s%s' % ('lines from a CR-trimming line function' if trimmed else 'pieces this rule does not follow',
+                                                                                     ('; built from the raw view(s) %s of the record' % raw_views) if raw_views else ': not judged' if not trimmed else ''),
+                  undecided=(not trimmed) and not raw_views)
         else:
             R.add('VIEW-3', os_, 'owned-seq-concatenates-lines', ok, site(os_, os_.span['lo']), 'owned_seq extends a Vec with every item of seq_lines(): %s' % ok)
     except KeyError:
@@ -985,6 +1050,11 @@ def iter_rules(prog, R):
                 R.add('ITER-2', b, 'delegates-%s' % meth, False, site(b, b.span['lo']),
                       '%s() runs %s over the wrapped iterator: one call may consume several of its items, which size_hint()/len() still count' % (meth, '/'.join(sorted(set(multi)))))
                 continue
+            # one step of an iterator that is built from the wrapped reader / iterator on the spot (`self.rdr.records().next()`)
+            if len(steps) == 1 and not steps[0][1]:
+                dd_ = data_deps(b, steps[0][0].args[0])
+                if any(d[0] == 'arg' and d[1] == 1 and d[-1] and d[-1][0][1] in inner_fields for d in dd_):
+                    steps = [(steps[0][0], True)]
             one = len(steps) == 1 and steps[0][1] and steps[0][0].callee.name == meth
             feeds = False
             if one:
@@ -1109,7 +1179,7 @@ def ser_rules(prog, R):
         declared = [f['name'] for f in adt['variants'][0]['fields']]
         ser = [b for b in prog.bodies.values() if re.search(r'Serialize for %s>::serialize$' % re.escape(ty), b.path)]
         if len(ser) != 1:
-            R.add('SER-1', ty, 'serialize-impl', False, adt['span']['file'], 'expected one derived Serialize impl, found %d (a hand-written impl is outside the fragment: UNDECIDED)' % len(ser))
+            R.undecided('SER-1', ty, 'serialize-impl', adt['span']['file'], 'expected one derived Serialize impl, found %d: a hand-written impl (e.g. through a private mirror struct) is not judged' % len(ser))
             continue
         names = []
         nlen = None
@@ -1348,6 +1418,29 @@ def len2_rule(prog, R, trimmer):
             seen.add(s_)
             st.append(s_)
     esc = sorted(r for r in okret if r in seen)
+    if esc and eq_edges and not v.cfg.natural_loops():
+        # the verdicts are merged into one value first (`let broken = if .. {Some(err)} else if .. {..} else {None}; match broken`):
+        # decide per path - every accepting path took "trimmed lengths equal" or "last line terminated"
+        from scev import Sym as _Sym, Aff as _Aff
+        npaths = nok = 0
+        for p_ in _Sym(prog, v).run(0):
+            r0 = p_.env.get(0)
+            if p_.end[0] != 'return' or getattr(r0, 'variant', None) != 'Ok':
+                continue
+            npaths += 1
+            good = False
+            for (x_, d_, tk_) in p_.conds:
+                s1 = d_.single() if isinstance(d_, _Aff) else None
+                if isinstance(s1, tuple) and s1[0] == 'H' and s1[1] in bool_params and tk_ == 0:
+                    good = True
+                if isinstance(s1, tuple) and s1[0] == 'cmp' and s1[1] in ('Eq', 'Ne') and all(
+                        isinstance(o_, _Aff) and isinstance(o_.single(), tuple) and o_.single()[0] == 'len' for o_ in (s1[2], s1[3])):
+                    truth = (tk_ != 0) if tk_ is not None else True
+                    if truth == (s1[1] == 'Eq') and (x_, None) is not None and any(a_ == x_ for (a_, _) in eq_edges):
+                        good = True
+            nok += good
+        if npaths and nok == npaths:
+            esc = []
     R.add('LEN-2', v, 'acceptance-on-raw-extents-needs-terminated-last-line', not esc and bool(eq_edges), site(v, v.span['lo']),
           'the validator can accept a record on equal raw extents alone, without knowing that the last line is terminated: %s' % (
               bool(esc) or not eq_edges) + ' (a CRLF record whose unterminated quality line is one longer than the sequence is accepted)' * bool(esc or not eq_edges)
